@@ -277,13 +277,13 @@ def work(t):
   confirmed = None
   for r in P.results:
     r = dict(r)
-    if r['status'] == 'sat' and r.get('kind', 'core') == 'core':
+    if r['status'] in ('sat', 'unknown') and r.get('kind', 'core') == 'core':
       if confirmed is None:
         confirmed = confirm(t) or False
       if confirmed:
         r['status'] = 'violation'
         viol.append(dict(key=confirmed['key'], what=confirmed['what'], replay=confirmed['replay']))
-      else:
+      elif r['status'] == 'sat':
         r['status'] = 'spurious'
         r['note'] = 'candidate counterexample did not reproduce on the real code'
     res.append(r)
